@@ -83,9 +83,15 @@ pub struct NoErrorOracle {
 	/// closure by a *requested* cooperative shutdown is fine
 	pub allow_coop: bool,
 	pub allow_force_by_user: bool,
+	/// a channel that is not funded yet is dropped when its peer disconnects
+	pub allow_unfunded_drop: bool,
 	/// nodes that have broadcast a cooperative closing transaction, and whether their connection dropped afterwards
 	pub coop_broadcast: std::collections::BTreeSet<usize>,
 	pub dropped_after_coop: std::collections::BTreeSet<usize>,
+	/// nodes that dropped a not-yet-funded channel because the peer disconnected
+	pub dropped_unfunded: std::collections::BTreeSet<usize>,
+	/// a funding transaction has been broadcast (from then on a channel is real)
+	pub funding_broadcast: bool,
 }
 
 impl Oracle for NoErrorOracle {
@@ -95,6 +101,14 @@ impl Oracle for NoErrorOracle {
 	fn observe(&mut self, _w: &World, obs: &[Obs]) -> Result<(), Failure> {
 		for o in obs {
 			match o {
+				Obs::Broadcast { b, .. } if b.kinds.iter().any(|k| k == "Funding") => {
+					self.funding_broadcast = true;
+				},
+				Obs::Disconnected { a, b } if self.allow_unfunded_drop && !self.funding_broadcast => {
+					// both ends forget (or will be made to forget) a channel whose funding was never broadcast
+					self.dropped_unfunded.insert(*a);
+					self.dropped_unfunded.insert(*b);
+				},
 				Obs::Broadcast { node, b, .. } if b.kinds.iter().any(|k| k == "CooperativeClose") => {
 					self.coop_broadcast.insert(*node);
 				},
@@ -104,6 +118,15 @@ impl Oracle for NoErrorOracle {
 							self.dropped_after_coop.insert(n);
 						}
 					}
+				},
+				Obs::Sent { from, wire: Wire::Error(m), .. }
+					if self.allow_unfunded_drop
+						&& !self.dropped_unfunded.is_empty()
+						&& !self.funding_broadcast
+						&& (m.data.contains("No such channel_id") || m.data.contains("invalid channel_reestablish")) =>
+				{
+					// the peer still believes in a channel this node dropped before it was funded; it answers
+					// the bogus channel_reestablish it gets back with an error of its own
 				},
 				Obs::Sent { from, to, wire: Wire::Error(m) } => {
 					if !self.allow_force_by_user {
@@ -125,13 +148,18 @@ impl Oracle for NoErrorOracle {
 					return Err(Failure::new("no-protocol-error", format!("node {} asked to disconnect {}", from, to)));
 				},
 				Obs::Event { node, ev: Event::ChannelClosed { reason, .. } } => {
+					if matches!(reason, ClosureReason::DisconnectedPeer) && self.allow_unfunded_drop {
+						self.dropped_unfunded.insert(*node);
+					}
 					let ok = match reason {
 						ClosureReason::LegacyCooperativeClosure
 						| ClosureReason::CounterpartyInitiatedCooperativeClosure
 						| ClosureReason::LocallyInitiatedCooperativeClosure => self.allow_coop,
 						ClosureReason::HolderForceClosed { .. } => self.allow_force_by_user,
-						ClosureReason::CounterpartyForceClosed { .. } => self.allow_force_by_user,
+						ClosureReason::CounterpartyForceClosed { .. } => self.allow_force_by_user || (self.allow_unfunded_drop && !self.dropped_unfunded.is_empty()),
 						ClosureReason::CommitmentTxConfirmed => self.allow_force_by_user,
+						ClosureReason::DisconnectedPeer => self.allow_unfunded_drop,
+						ClosureReason::ProcessingError { err } => self.allow_unfunded_drop && !self.dropped_unfunded.is_empty() && err.contains("invalid channel_reestablish"),
 						_ => false,
 					};
 					if !ok {
@@ -871,7 +899,23 @@ impl PersistOrderOracle {
 					}
 					let uid = match rec.update_id {
 						Some(u) => u,
-						None => continue, // chain-sync write
+						None => {
+							// chain-sync write - or an update the monitor refused after its channel was closed on
+							// chain, which the ChainMonitor then persists as a full monitor: the monitor's latest
+							// update id still advances by exactly one
+							if let Some(last) = self.last_id.get_mut(&key) {
+								if rec.monitor_update_id == *last + 1 {
+									*last += 1;
+									crate::runner::witness("c09-refused-update-persisted-in-full");
+								} else if rec.monitor_update_id > *last + 1 {
+									return Err(Self::fail(
+										"update-id-order",
+										format!("node {} chan {}: full-monitor write at update id {} after {}", node, ci, rec.monitor_update_id, last),
+									));
+								}
+							}
+							continue;
+						},
 					};
 					if let Some(last) = self.last_id.get(&key) {
 						if uid != *last + 1 {
@@ -1269,6 +1313,8 @@ impl ForwardOracle {
 							return Err(Self::fail(format!("forwarded with expiry {} for incoming expiry {} (delta {} not kept)", m.cltv_expiry, cltv_in, self.cltv_delta)));
 						}
 						crate::runner::witness("c02-forward-amount-and-expiry-checked");
+					} else if w.payments.iter().any(|p| p.from == self.fwd && p.hash == m.payment_hash) {
+						// the forwarder's own payment, not a forward
 					} else {
 						return Err(Self::fail("forwarded an HTLC that was never received upstream".into()));
 					}
@@ -1506,6 +1552,66 @@ pub fn describe_sent_and_failed(w: &World, sender: usize, hash: &lightning::type
 			plain
 		),
 		_ => plain,
+	}
+}
+
+/// C09 during channel opening: neither `channel_ready` nor the funding transaction leaves a node
+/// while the initial persistence of that channel's monitor is still outstanding on it (the oracle
+/// learns the channels as they appear, so it can watch an explored opening flow).
+#[derive(Default)]
+pub struct OpenPersistOracle {
+	/// (node, channel) -> initial persist outstanding
+	outstanding: BTreeMap<(usize, ChannelId), bool>,
+}
+impl Oracle for OpenPersistOracle {
+	fn name(&self) -> &'static str {
+		"open-persist-order"
+	}
+	fn observe(&mut self, w: &World, obs: &[Obs]) -> Result<(), Failure> {
+		for o in obs {
+			match o {
+				Obs::Persist { node, rec } if rec.new_channel => {
+					self.outstanding.insert((*node, rec.chan), rec.in_progress);
+					if rec.in_progress {
+						crate::runner::witness("c09-open-initial-persist-in-progress");
+					}
+				},
+				Obs::Completed { node, chan, .. } => {
+					if let Some(x) = self.outstanding.get_mut(&(*node, *chan)) {
+						*x = false;
+					}
+				},
+				Obs::Restarted { node, .. } => {
+					self.outstanding.retain(|(n, _), _| n != node);
+				},
+				Obs::Sent { from, wire: Wire::ChannelReady(m), .. } => {
+					if self.outstanding.get(&(*from, m.channel_id)).copied().unwrap_or(false) {
+						return Err(Failure::new(
+							"open-persist-order",
+							format!("node {} released channel_ready while the initial persistence of the channel's monitor had not been reported complete", from),
+						));
+					}
+					crate::runner::witness("c09-open-channel-ready-checked");
+				},
+				Obs::Broadcast { node, b, .. } if b.kinds.iter().any(|k| k == "Funding") => {
+					// the funder's channel: the one whose funding transaction this is
+					for ((n, cid), out) in self.outstanding.iter() {
+						if n == node && *out {
+							let is_this = w.nodes[*node].cm.list_channels().iter().any(|c| c.channel_id == *cid && c.funding_txo.map(|f| b.txs.iter().any(|t| t.compute_txid() == f.txid)).unwrap_or(false));
+							if is_this {
+								return Err(Failure::new(
+									"open-persist-order",
+									format!("node {} broadcast the funding transaction while the initial persistence of the channel's monitor had not been reported complete", node),
+								));
+							}
+						}
+					}
+					crate::runner::witness("c09-open-funding-broadcast-checked");
+				},
+				_ => {},
+			}
+		}
+		Ok(())
 	}
 }
 
